@@ -29,6 +29,10 @@ for s in seeds:
     d = os.path.join(root, s)
     meta = json.load(open(d + '/meta.json'))
     prop = meta.get('breaks') or meta.get('property')
+    if meta.get('obsolete'):
+        print('%s: obsolete (%s)' % (s, meta['obsolete'][:90]))
+        results[s] = 'obsolete'
+        continue
     ev = '/verif/evidence/%s.json' % prop
     saved = open(ev).read() if os.path.exists(ev) else None
     tree = '/repo'
